@@ -63,6 +63,7 @@ def classifyData (o : Oracle) (proposer : Bytes) (bs : Bytes) : BlobClass :=
   match SignedData.decode (fun _ => o.keyOk) bs with
   | none => .ignored
   | some sd => if sd.data.txs.isEmpty then .ignored
+               else if sd.data.metadata.isNone then .ignored      -- signed data without metadata is dropped
                else if validSignedData o proposer sd then .dataAccepted sd else .ignored
 
 /-- `handlePotentialHeader`, falling through to `handlePotentialData` -/
@@ -107,12 +108,7 @@ def handleBlobs (proposer : Bytes) (n : RNode) (da : Nat) : List (Bytes × Oracl
     | .dataAccepted sd =>
       let dc := sd.data.daCommitment
       let n' := { n with dMarks := (dc, da) :: n.dMarks }
-      match sd.data.metadata with
-      | none =>
-        -- `signedData.Height()` in the log call dereferences the nil metadata: the goroutine panics after the
-        -- mark was set and before the event is handed over (block/retriever.go:181)
-        ({ n' with crashed := true }, evs)
-      | some _ => handleBlobs proposer n' da rest (if dc ∈ n.seenD then evs else evs ++ [.dat sd da])
+      handleBlobs proposer n' da rest (if dc ∈ n.seenD then evs else evs ++ [.dat sd da])
     | _ => handleBlobs proposer n da rest evs
 
 def dAFetcherRetries : Nat := 10
